@@ -262,6 +262,27 @@ def step (st : St) (op : List String) (impl : Option (List String)) : St × Stri
       (st, out, v)
     | none, _ => (st, "no-lu", "-")
     | _, _ => (st, "bad-op", "-")
+  | "solvev" :: mb :: rest =>
+    -- the vector overload: the answer is printed as a one-column matrix
+    match st.cur, parseMat (mb :: "1" :: rest) with
+    | some c, some (⟨_, nx, B⟩, []) =>
+      if hx : nx = 1 then
+        let b : Vector Float _ := Vector.ofFn fun i => B.get i ⟨0, by omega⟩
+        let out := match solveVec c.s b with
+          | .error e => showErr e
+          | .ok (d, x) => "minD " ++ showF d ++ " ; X " ++ showMat (colMat x)
+        let v := match impl with
+          | none => "-"
+          | some t =>
+            if h : c.m = c.n then
+              let A : Mat Float c.n c.n := h ▸ c.A
+              let s : State Float c.n c.n := h ▸ c.s
+              solveVerdict A s B t
+            else "-"
+        (st, out, v)
+      else (st, "bad-op", "-")
+    | none, _ => (st, "no-lu", "-")
+    | _, _ => (st, "bad-op", "-")
   | "inv" :: rest =>
     match parseMat rest with
     | some (X, []) =>
